@@ -299,9 +299,10 @@ class Validator:
                 lo = min(s.addr for s in tsecs)
                 hi = max(s.addr + s.size for s in tsecs)
                 al = max(max(s.addralign for s in tsecs), 1)
-                if al > 1 and tls.vaddr % al and tls.vaddr == lo:
+                if al > 1 and tls.vaddr % al and tls.vaddr == lo and (self.who == "wild" or not self.info["script"]):
                     # (judged on non-empty sections only: lld 14 itself leaves p_vaddr unaligned when the strict
-                    # alignment comes from an *empty* TLS section or the segment starts with an empty .tdata)
+                    # alignment comes from an *empty* TLS section or the segment starts with an empty .tdata, and does not
+                    # align TLS under -T at all: no reference there)
                     # The x86-64 TLS ABI computes TP offsets as if the template started p_align-aligned and glibc's
                     # static start-up (csu/libc-tls.c) places it so; GNU ld and lld always align the first TLS section
                     # to the segment's alignment.
